@@ -10,6 +10,7 @@ change is reverted, and the worktree is removed at the end.
 """
 import json
 import os
+import re
 import subprocess
 import sys
 import time
@@ -73,9 +74,9 @@ def main():
         out, args = args[1], args[2:]
     only = args
     wt = f"/tmp/seeded_wt_{os.getpid()}"
-    rc, out = sh(f"git -C /repo worktree add --detach {wt} HEAD")
+    rc, msg = sh(f"git -C /repo worktree add --detach {wt} HEAD")
     if rc != 0:
-        print(out)
+        print(msg)
         return 2
     results = {}
     path = out or os.path.join(SEEDED, "RESULTS.json")
@@ -88,17 +89,17 @@ def main():
                 continue
             meta = json.load(open(os.path.join(d, "meta.json")))
             checks = meta.get("checks") or [meta["property"]]
-            rc, out = sh(f"git apply {d}/patch.diff", cwd=wt)
+            rc, msg = sh(f"git apply {d}/patch.diff", cwd=wt)
             if rc != 0:
-                results[name] = {"error": "patch does not apply: " + out[-200:]}
+                results[name] = {"error": "patch does not apply: " + msg[-200:]}
                 continue
             env = {"PYTHONPATH": wt, "VERIF_NO_EVIDENCE": "1", "VERIF_TIER": "quick"}
             rd, od = sh(f"/venv/bin/python {d}/demo.py", cwd=wt, env={"PYTHONPATH": wt}, timeout=900)
             res = {"property": meta["property"], "demo_fails_with_change": rd != 0, "checks": {}}
             for c in checks:
                 t0 = time.time()
-                rc, out = sh(f"./check {c}", cwd=ROOT, env=env)
-                fps = sorted({l.split("[")[-1].rstrip("]") for l in out.splitlines() if l.strip().startswith("violation:")})
+                rc, txt = sh(f"./check {c}", cwd=ROOT, env=env)
+                fps = sorted({m.group(1) for l in txt.splitlines() if l.strip().startswith("violation:") for m in [re.search(r"\[(C\d\d:[^ ]*)\]\s*$", l)] if m})
                 res["checks"][c] = {"exit": rc, "verdict": "detected" if rc == 1 else "missed" if rc == 0 else "machinery-failure", "fingerprints": fps[:5], "wall_s": round(time.time() - t0, 1)}
                 print(f"{name}: {c} -> {res['checks'][c]['verdict']} {fps[:2]}", flush=True)
             sh("git checkout -- . && git clean -fdq", cwd=wt)
